@@ -53,6 +53,8 @@ class Pool:
         bop("A", B("laplace", "single_layer", S["S0"], S["S0"], S["S0"]), "S0", "S0", "S0")
         bop("A2", B("laplace", "single_layer", S["S0b"], S["S0b"], S["S0b"], par=ops.params(3, 3)), "S0b", "S0b", "S0b")
         bop("H", B("helmholtz", "single_layer", S["S0"], S["S0"], S["S0"], k=1.2), "S0", "S0", "S0")
+        # a real operator assembled in single precision (float32 discrete operator): combinations involving it are compared to single accuracy
+        bop("As", B("laplace", "single_layer", S["S0"], S["S0"], S["S0"], precision="single"), "S0", "S0", "S0")
         bop("C", B("laplace", "double_layer", S["S1"], S["S0"], S["S0"]), "S1", "S0", "S0")
         bop("D", B("laplace", "adjoint_double_layer", S["S0"], S["S1"], S["S1"]), "S0", "S1", "S1")
         bop("I0", B("sparse", "identity", S["S0"], S["S0"], S["S0"]), "S0", "S0", "S0")
@@ -147,7 +149,7 @@ class Pool:
 
 
 LEAVES = {
-    "bop": ["A", "A2", "H", "C", "D", "I0", "I1", "Z"],
+    "bop": ["A", "A2", "H", "C", "D", "I0", "I1", "Z", "As"],
     "blk": ["B1", "B2", "B3", "G1"],
     "disc": ["Dr", "Dc", "Sp", "Dg", "Inv", "Zd", "R1", "Rect"],
     "gf": ["f", "g", "h", "fd", "hd1", "hd0"],
@@ -439,7 +441,7 @@ def shape_sig(t):
     """Structural signature: the term with leaves replaced by their sort and scalars by 's'."""
     op = t[0]
     if op == "leaf":
-        return {"A": "bop", "A2": "bop", "H": "bopC", "C": "bop", "D": "bop", "I0": "sparse", "I1": "sparse", "Z": "zero"}.get(t[1], t[1])
+        return {"A": "bop", "A2": "bop", "H": "bopC", "C": "bop", "D": "bop", "I0": "sparse", "I1": "sparse", "Z": "zero", "As": "bop32"}.get(t[1], t[1])
     if op == "smul":
         return "s*%s" % shape_sig(t[2])
     if op == "muls":
@@ -504,10 +506,19 @@ def check_term(ctx, pool, t):
     for key, want in exp.items():
         got = nums[key]
         sc = scale * (want.shape[0] if key in ("complex-matvec", "matmat") else 1.0) if want.ndim else scale
-        ctx.check_close(sig + "/" + key, case, got, want, TOL, "algebra:" + key, scale=max(sc, 1e-300))
+        ctx.check_close(sig + "/" + key, case, got, want, SINGLE_TOL if _has_leaf(t, "As") else TOL, "algebra:" + key, scale=max(sc, 1e-300))
     # a real-typed result is only wrong where the represented matrix has an imaginary part (an identically zero product may keep a real dtype)
     if ref[0] in ("bop", "blk", "disc") and not np.iscomplexobj(nums["dense"]) and np.iscomplexobj(ref[2]) and np.any(np.imag(ref[2]) != 0):
         ctx.violation(sig + "/dtype", case, "complex operands gave a real matrix")
+
+
+SINGLE_TOL = 2e-5
+
+
+def _has_leaf(t, name):
+    if t[0] == "leaf":
+        return t[1] == name
+    return any(_has_leaf(x, name) for x in t[1:] if isinstance(x, tuple))
 
 
 TRANSPOSABLE = {"Dr", "Dc", "Sp", "Dg", "R1", "Rect"}
